@@ -102,6 +102,10 @@ theorem calcCrowding_perm (pop : List (Ind α)) : (calcCrowding N pop).1.Perm po
 
 theorem crowdingSort_perm (pop : List (Ind α)) : (crowdingSort N pop).Perm pop := by
   unfold crowdingSort
+  exact (sortByKey_perm _ _ _).trans (calcCrowding_perm N pop)
+
+theorem crowdingSortOld_perm (pop : List (Ind α)) : (crowdingSortOld N pop).Perm pop := by
+  unfold crowdingSortOld
   exact (reverse_perm _).trans ((sortByKey_perm _ _ _).trans (calcCrowding_perm N pop))
 
 theorem crowdingSort_length (pop : List (Ind α)) : (crowdingSort N pop).length = pop.length :=
